@@ -29,6 +29,9 @@ that code:
      so the rebuilt call must filter ``kwarguments=`` as well; a positional
      pairing (``zip(call.routine.arguments, call.arguments)``) goes with the
      positional filter alone.
+ R7  one value per dummy: before the record of a callee is replaced, the previous
+     record (an earlier call of the same routine, or another caller) is read and a
+     conflicting value raises -- otherwise the last call silently wins.
 Not decided: equivalence of the parametrised code for matching inputs (value
 level), the replace-by-value inlining.
 """
@@ -300,6 +303,7 @@ def run(ctx):
                 return value_ok(defs[0], p)
         return False, f'the value `{txt}` is not `{dname}[{p}.name]`'
     run_r5(ctx, fn, ts, dname)
+    run_r7(ctx, fn, ts, _outer_store(fn, st))
     run_r6(ctx, fn, ts, st, bool(pairing_covers_keywords) or bool(inv) and not any(
         isinstance(n, ast.Name) and n.id in positional for n in ast.walk(st.targets[0].slice)))
     okv, why = value_ok(st.value, passed)
@@ -341,6 +345,54 @@ def run_r6(ctx, fn, ts, st, covers_keywords):
         ctx.judge('R6', 'fixed occurrences are removed occurrences (per argument kind)', facts=facts)
 
 
+def run_r7(ctx, fn, ts, st):
+    """one value per dummy of a callee: the record is compared with what an earlier call (or caller) recorded before it replaces it"""
+    ctx.rule('R7', 'the record stored in the successor\'s trafo_data is compared with the previous record on the path to the store: a conflict '
+                   'raises (or the records are merged) instead of the last call winning')
+    loop = next((l for l in ast.walk(fn) if isinstance(l, ast.For) and st in list(ast.walk(l)) and 'CallStatement' in ast.unparse(l.iter)), None)
+    if loop is None:
+        raise AnalysisError('transform_subroutine: the loop over the call statements around the callee record was not found')
+    prev = set(X.names_assigned_from(loop, 'trafo_data'))
+    grew = True
+    while grew:
+        grew = False
+        for a in ast.walk(loop):
+            if isinstance(a, ast.Assign) and any(isinstance(n, ast.Name) and n.id in prev for n in ast.walk(a.value)):
+                for t in a.targets:
+                    if isinstance(t, ast.Name) and t.id not in prev:
+                        prev.add(t.id)
+                        grew = True
+    checked = False
+    for r_, guards in X.nodes_with_guards(loop, lambda x: isinstance(x, ast.Raise)):
+        if r_.lineno < st.lineno and any(any(isinstance(n, ast.Name) and n.id in prev for n in ast.walk(ast.parse(g, mode='eval')))
+                                          for g in guards if not g.startswith('<')):
+            checked = True
+    merged = any(isinstance(n, ast.Name) and n.id in prev for n in ast.walk(st.value))
+    if not merged and isinstance(st.value, ast.Name):
+        merged = any(isinstance(a, (ast.Assign, ast.AugAssign)) and st.value.id in ast.unparse(a.targets[0] if isinstance(a, ast.Assign) else a.target)
+                     and any(isinstance(n, ast.Name) and n.id in prev for n in ast.walk(a.value)) for a in ast.walk(loop))
+    facts = {'previous_record_names': sorted(prev), 'raises_on_conflict': checked, 'merges': merged}
+    if checked or merged:
+        ctx.judge('R7', 'callee record: conflict with an earlier call detected', facts=facts)
+    else:
+        ctx.violation('R7', 'transform_subroutine:callee-record-overwritten', f'{ts.module.relpath}:{st.lineno}',
+                      f'`{ast.unparse(st)[:100]}` replaces whatever an earlier call recorded for the same callee without looking at it: with '
+                      f'`call fill(a, x); call fill(b, y)` and dic2p = {{a: 12, b: 11}} the callee is silently specialised to n = 11 for both calls',
+                      facts=facts)
+
+
+def _outer_store(fn, st):
+    """the statement that publishes the record to the successor (`<successor>.trafo_data[key] = D`) for the store `D[dummy] = v`"""
+    cont = st.targets[0].value
+    if 'trafo_data' in ast.unparse(cont):
+        return st
+    for a in ast.walk(fn):
+        if isinstance(a, ast.Assign) and isinstance(a.value, ast.Name) and isinstance(cont, ast.Name) and a.value.id == cont.id \
+                and 'trafo_data' in ast.unparse(a.targets[0]):
+            return a
+    raise AnalysisError('the statement publishing the callee record to trafo_data was not found')
+
+
 def run_r5(ctx, fn, ts, dname):
     """recorded occurrences == removed occurrences of parametrised variables in a call"""
     ctx.rule('R5', 'the occurrences of parametrised variables recorded for the callee are the occurrences removed from the call: no first-match '
@@ -372,6 +424,8 @@ def _comp_of(fn, e):
     return None
 
 MUTANTS = [
+    Mutant('callee-record-last-call-wins', FILE, "                    if conflicts:\n                        raise RuntimeError(", "                    if False:\n                        raise RuntimeError(",
+           expect=('R7', 'callee-record-overwritten')),
     Mutant('callee-data-from-arg-iter', FILE, "                    for dummy, arg in zip(call.routine.arguments, call.arguments):",
            "                    for dummy, arg in call.arg_iter():", expect=('R6', 'keyword-argument-fixed-but-kept')),
     Mutant('guard-operator-eq', FILE, "condition = sym.Comparison(routine.variable_map[f'parametrised_{key}'], '!=',",
